@@ -18,6 +18,11 @@
 //   put:<B>:<mode>                  PUT /<md5 B> through the router        mode = run | k<i> | c<i> | m<j>x<n>
 //                                   (m: the context is cancelled when WriteBlock, having read j
 //                                   chunks of n bytes from putWithPipe's pipe, asks for more)
+//                                   | f<i> | f<i>k<j>: fault injection: when the i-th point is
+//                                   WriteBlock's Chtimes or Rename, the temp file is unlinked just
+//                                   before the call, so that the call fails (ENOENT) and WriteBlock
+//                                   takes its error return; PutBlock then tries the volume again;
+//                                   k<j>: SIGKILL at the j-th point afterwards
 //   wb:<B>:<chunk>:<rd>:<limit>:<mode>  UnixVolume.WriteBlock with a scripted reader
 //                                   rd = eof | e<j> (error after j chunks) | x<j> (SIGKILL in the
 //                                   Read call after j chunks); limit = RLIMIT_FSIZE bytes (0 = none)
@@ -297,6 +302,16 @@ func TestVerifC02Child(t *testing.T) {
 	if f[0] != "put2" && len(mode) > 1 && (mode[0] == 'k' || mode[0] == 'c') {
 		target, _ = strconv.Atoi(mode[1:])
 	}
+	faultAt := -1
+	if f[0] == "put" && len(mode) > 1 && mode[0] == 'f' {
+		fk := strings.Split(mode[1:], "k")
+		faultAt, _ = strconv.Atoi(fk[0])
+		if len(fk) == 2 {
+			target, _ = strconv.Atoi(fk[1])
+		} else if len(fk) != 1 {
+			panic("bad f mode")
+		}
+	}
 	midAfter, midChunk := -1, 0
 	if f[0] != "put2" && len(mode) > 1 && mode[0] == 'm' {
 		jc := strings.Split(mode[1:], "x")
@@ -367,10 +382,25 @@ func TestVerifC02Child(t *testing.T) {
 		count++
 		mu.Unlock()
 		say("P " + id)
+		if n == faultAt && (id == "WriteBlock:os.Chtimes:7" || id == "WriteBlock:v.os.Rename:13") {
+			// unlink the newest temp file of this block: the call that follows fails with ENOENT
+			h := verifC02Hash(verifC02Body(f[1]))
+			names, _ := filepath.Glob(filepath.Join(root, h[:3], "tmp"+h+"*"))
+			best, bestT := "", time.Time{}
+			for _, nm := range names {
+				if fi, err := os.Lstat(nm); err == nil && (best == "" || fi.ModTime().After(bestT)) {
+					best, bestT = nm, fi.ModTime()
+				}
+			}
+			if best != "" {
+				os.Remove(best)
+				say("F")
+			}
+		}
 		if n != target {
 			return
 		}
-		if mode[0] == 'k' {
+		if mode[0] == 'k' || mode[0] == 'f' {
 			syscall.Kill(os.Getpid(), syscall.SIGKILL)
 			select {}
 		}
@@ -680,7 +710,7 @@ func (h *verifC02Hist) child(spec string) string {
 		switch {
 		case strings.HasPrefix(l, "P "):
 			points = append(points, l[2:])
-		case l == "X" || l == "C":
+		case l == "X" || l == "C" || l == "F":
 			points = append(points, l)
 		case strings.HasPrefix(l, "W "):
 			acked = l[2:]
